@@ -1,6 +1,6 @@
 SPECIFICATION Spec
 CONSTANTS
-  Vals <- V2
+  Vals <- V1
   MaxQ = 2
   RecordActs = FALSE
 INVARIANT TypeOK
@@ -11,5 +11,5 @@ INVARIANT TxCoherent
 INVARIANT RxFifo
 INVARIANT TxFifo
 PROPERTY RestoreIsIdentity
-CONSTRAINT Bounded3
+CONSTRAINT Bounded4
 CHECK_DEADLOCK FALSE
